@@ -379,10 +379,6 @@ fn grids(args: &Args, rep: &mut Report) {
                         }
                     }
                     for e in ends {
-                        pair += 1;
-                        if !thorough && pair % 2 != args.seed % 2 {
-                            continue;
-                        }
                         one(format!("{start}{e} 10:00-12:00"), "cross_dated_start", days.clone(), rep);
                     }
                 }
